@@ -331,6 +331,31 @@ main (void)
           jarr (o, 8);
           fprintf (out, "}\n");
         }
+      else if (!strcmp (cmd, "destables"))
+        { /* the generated lookup tables of alg-des-tables.c, one line per (table, chunk); 32-bit entries as [hi16, lo16] */
+#define DUMP2(name, L, R, n) \
+          for (int k = 0; k < 8; k++) \
+            { \
+              fprintf (out, "{\"e\":\"destab\",\"t\":\"%s\",\"k\":%d,\"l\":[", name, k); \
+              for (int v = 0; v < n; v++) fprintf (out, "%s[%u,%u]", v ? "," : "", L[k][v] >> 16, L[k][v] & 0xffff); \
+              fprintf (out, "],\"r\":["); \
+              for (int v = 0; v < n; v++) fprintf (out, "%s[%u,%u]", v ? "," : "", R[k][v] >> 16, R[k][v] & 0xffff); \
+              fprintf (out, "]}\n"); \
+            }
+          DUMP2 ("ip", ip_maskl, ip_maskr, 256)
+          DUMP2 ("fp", fp_maskl, fp_maskr, 256)
+          DUMP2 ("keyperm", key_perm_maskl, key_perm_maskr, 128)
+          DUMP2 ("comp", comp_maskl, comp_maskr, 128)
+          for (int b = 0; b < 4; b++)
+            {
+              fprintf (out, "{\"e\":\"destab\",\"t\":\"msbox\",\"k\":%d,\"l\":[", b);
+              for (int v = 0; v < 4096; v++) fprintf (out, "%s%u", v ? "," : "", m_sbox[b][v]);
+              fprintf (out, "],\"r\":[]}\n");
+              fprintf (out, "{\"e\":\"destab\",\"t\":\"psbox\",\"k\":%d,\"l\":[", b);
+              for (int v = 0; v < 256; v++) fprintf (out, "%s[%u,%u]", v ? "," : "", psbox[b][v] >> 16, psbox[b][v] & 0xffff);
+              fprintf (out, "],\"r\":[]}\n");
+            }
+        }
       else if (!strcmp (cmd, "quit"))
         break;
     }
